@@ -24,7 +24,8 @@ PLANS = {
     "C02": [("runsim", "asan", "selection", 160000, 2000000), ("runsim", "asan", "lifecycle", 20000, 300000), ("runsim", "noexc", "selection", 40000, 300000)],
     # (engine, variant, profile, quick runs, thorough runs[, properties whose oracles, in this batch, are also violations of the checked property])
     "C04": [("heapsim", "asan", "accounting", 80000, 1200000), ("heapsim", "noguard", "accounting", 40000, 500000), ("heapsim", "asan", "misuse", 20000, 200000), ("heapsim", "asan", "soundness", 20000, 200000),
-            ("runsim", "asan", "leaks", 30000, 300000, ("C07",))],
+            ("runsim", "asan", "leaks", 30000, 300000, ("C07",)),
+            ("thrsim", "tsi", "threads", 6000, 100000, ("C10",))],      # the outstanding set after several threads allocated and released under the thread-safe overloads: "exactly as if the operations had run one after another" is this property's set identity under interleavings
     "C05": [("heapsim", "asan", "soundness", 120000, 1500000), ("heapsim", "noguard", "soundness", 60000, 700000), ("heapsim", "asan", "accounting", 16000, 200000), ("heapsim", "asan", "oom", 16000, 200000),
             ("thrsim", "tsi", "threads", 6000, 100000, ("C10",))],      # the same allocation forms from several threads: a block that two threads were handed, or a table damaged by a race, is not a sound block
     "C06": [("heapsim", "asan", "misuse", 300000, 3000000), ("heapsim", "noguard", "misuse", 100000, 1000000), ("heapsim", "asan", "accounting", 20000, 200000)],
